@@ -23,6 +23,7 @@ def numeric(ctx, db, path, rules_, weighted=False, pair=False, accessor_args=Non
     scen["contracts"] = extra_contracts or {}
     if "count" in rules_:
         R.r_count(ctx, db, e, db.cfg)
+    N.r_prec(ctx, db, e, scen)
     if "dim" in rules_:
         N.r_dim(ctx, db, e, scen, extra_contracts)
     if "mag" in rules_ and "dim" in rules_:
@@ -212,6 +213,10 @@ def c16(ctx):
         # states of the table reached through Default or through merges with empty estimators
         R.r_default_is_new(ctx, db, e)
         R.r_ident_merge(ctx, db, e, assume=R.nonnan_state if kind in ("Min", "Max") else None)
+        # an add-only stream may be fed through extend/collect: those are add in a loop, exactly
+        if path in INGEST_TYPES:
+            import forward_rules as FW
+            FW.r_forward_ingest(ctx, db, e, max_items=2, state_assume=R.weights_assumer(db, e, False) if kw.get("weighted") else None)
     q = Est(db, "quantile::Quantile")
     if q.exists():
         types += 1
@@ -288,12 +293,19 @@ def quantile_est(ctx, cfg="B"):
     return db, e, roles
 
 
+def c05_default(ctx, db, e):
+    """`Default` (used by concatenate! for every field) must be a correctly initialised estimator"""
+    import fnode as F
+    R.r_default_is_new(ctx, db, e, new_args=lambda m: [F.lit(0.5)])
+
+
 def c05(ctx):
     import quantile_rules as Q
     db, e, roles = quantile_est(ctx)
     if e is None:
         return
     Q.r_p2_init(ctx, db, e, roles)
+    c05_default(ctx, db, e)
     Q.r_middle_marker(ctx, db, e, roles)
     n = Q.r_p2_step(ctx, db, e, roles)
     ctx.floor("abstract paths of Quantile::add (>= 5 observations) compared with the specification", n, 100)
@@ -517,6 +529,8 @@ def c19(ctx):
             R.laws_add_merge(ctx, db, e, ("L2", "L3", "L4"))
             R.r_count(ctx, db, e, "A")
             merge_stability(ctx, db, t)   # "within the envelope" needs a cancellation-free merge (C02)
+            if t == "Moments4":
+                R.r_binom(ctx, db, t, 4)   # the binomial rows the merge of every define_moments! type draws on
     ctx.floor("from_par_iter impls analysed", n, 18)
 
 
